@@ -157,6 +157,29 @@ func RunC10(e *core.Env) int {
 		}
 	}
 	runExecBatches(e, rep, "hooks", n, 125, execmon.Job{NRandom: k, MutateHooks: true}, func(b *Batch, eo *ExecOut) {
+		// an accepted hook whose CALL does not compile hands the hook something other than what it declares
+		for _, c := range b.Cases {
+			if c.Run.Exit != 0 || len(c.TypeErrs) == 0 {
+				continue
+			}
+			for _, m := range c.S.AllMethods() {
+				for _, kind := range []string{"preprocess", "postprocess"} {
+					nt, ok := m.Get(kind)
+					if !ok || len(nt.Args) == 0 {
+						continue
+					}
+					for _, te := range c.TypeErrs {
+						if strings.Contains(te, nt.Args[0]+"(") || strings.Contains(te, " to "+nt.Args[0]) || strings.HasSuffix(strings.TrimSpace(te), " "+nt.Args[0]) {
+							rep.Eval(1)
+							rep.Violate(&core.Violation{Property: "C10", Monitor: "typecheck", Symptom: "hook-call-does-not-compile",
+								Features: map[string]string{"hook": kind[:3], "class": classifyTypeErr(te), "src_ptr": fmt.Sprint(strings.HasPrefix(m.Src.Type, "*")), "dst_ptr": fmt.Sprint(strings.HasPrefix(m.Dst.Type, "*"))},
+								Case:     c.S.ID, Detail: fmt.Sprintf("%s: the call of %s hook %s does not compile: %s", m.Name, kind, nt.Args[0], te), Files: c.ReplayFiles()})
+							break
+						}
+					}
+				}
+			}
+		}
 		for id, infos := range eo.Infos {
 			for key, fi := range infos {
 				judgeC10(rep, fi, eo.Recs[id+"/"+key])
@@ -216,6 +239,44 @@ func illFittingHooks() []*scen.Scenario {
 		add("unknownpkg", "", "nopkg.Hook", nil, false)
 		add("variadic", "func h(d *B, s *A, more ...int) {}\n", "h", nil, false)
 		add("scalar", "func h(d int, s string) {}\n", "h", nil, false)
+	}
+	// one hook function shared by two methods: it fits one of them and not the other, whichever is
+	// declared (or sorts) first - every USE of a hook has to be checked against its own method
+	j := 0
+	for _, kind := range []string{"preprocess", "postprocess"} {
+		for _, sh := range []struct {
+			name, hook   string
+			fitSrc, fitE bool // the ill-fitting method differs in source type / lacks the error result
+		}{
+			{"sharedsrc", "func h(d *B, s *A) {}\n", true, false},
+			{"sharederr", "func h(d *B, s *A) error { return nil }\n", false, true},
+		} {
+			for _, fitFirst := range []bool{true, false} {
+				j++
+				id := fmt.Sprintf("bs%02d%s%s%v", j, kind[:3], sh.name, fitFirst)
+				b := scen.NewBuilder(nil, scen.Profile{}, id, id)
+				b.Struct("", "A", "X int")
+				b.Struct("", "B", "X int")
+				b.Struct("", "C", "X int")
+				b.Func(sh.hook, true, "")
+				fit := &scen.Method{Src: scen.Param{Type: "*A"}, Dst: scen.Param{Type: "*B"}, HasErr: sh.fitE, Notations: []scen.Notation{scen.N(kind, "h")}}
+				bad := &scen.Method{Src: scen.Param{Type: "*A"}, Dst: scen.Param{Type: "*B"}, Notations: []scen.Notation{scen.N(kind, "h")}}
+				if sh.fitSrc {
+					bad.Src.Type = "*C"
+				}
+				var s *scen.Scenario
+				if fitFirst {
+					fit.Name, bad.Name = "Afits", "Zbad"
+					s = b.Manual(fit, bad)
+				} else {
+					fit.Name, bad.Name = "Zfits", "Abad"
+					s = b.Manual(bad, fit)
+				}
+				s.InConv = false
+				s.Feature("bad_hook", id)
+				out = append(out, s)
+			}
+		}
 	}
 	return out
 }
